@@ -44,6 +44,9 @@ pub struct Case {
     pub cuts: Vec<u16>,
     /// HTTP/2 client: small flow-control window and delayed release
     pub slow_client: bool,
+    /// HTTP/3 client (quiche) against the real QUIC listener; `h2` is then ignored
+    #[serde(default)]
+    pub h3: bool,
 }
 
 fn body_bytes(n: usize) -> Vec<u8> {
@@ -160,12 +163,25 @@ struct Seen {
 
 async fn run_case(c: &Case) -> Result<Seen, Violation> {
     let herr = |e: String| Violation { sig: "harness:c17".into(), msg: e };
-    let spec = CoreSpec { tcp_timeout: Duration::from_secs(30), ..CoreSpec::default() };
-    let world = spec.build().map_err(herr)?;
+    let spec = CoreSpec { tcp_timeout: Duration::from_secs(30), quic: c.h3, ..CoreSpec::default() };
+    let net = if c.h3 { Some(crate::engine::networld::NetWorld::start(&spec).await.map_err(herr)?) } else { None };
+    let own_world;
+    let world: &crate::engine::world::World = match &net {
+        Some(n) => &n.world,
+        None => {
+            own_world = spec.build().map_err(herr)?;
+            &own_world
+        }
+    };
     let scripted = Scripted::new(|_| Outcome::Silent);
-    let _g = scripted.install(&world);
+    let _g = scripted.install(world);
     let proto = if c.h2 { Proto::Http2 } else { Proto::Http1 };
-    let (mut io, _srv) = world.serve(proto, ChannelView::Tunnel, "main.x", None, crate::engine::world::peer_v4(), 1 << 20);
+    let (mut io, _srv) = if c.h3 {
+        let (a, _b) = tokio::io::duplex(16);
+        (a, tokio::spawn(async { Ok(()) }))
+    } else {
+        world.serve(proto, ChannelView::Tunnel, "main.x", None, crate::engine::world::peer_v4(), 1 << 20)
+    };
     let auth = format!("Basic {}", b64("user:pass"));
     let (origin_bytes, _) = c.origin_stream();
     let mut cuts: Vec<usize> = c.cuts.iter().map(|p| 1 + idx(*p, origin_bytes.len().saturating_sub(1))).filter(|x| *x < origin_bytes.len()).collect();
@@ -189,7 +205,26 @@ async fn run_case(c: &Case) -> Result<Seen, Violation> {
 
     // ---- send the request
     let mut h2_parts = None;
-    if !c.h2 {
+    let mut h3_task = None;
+    if c.h3 {
+        use crate::engine::quic::{h3_session, H3Request};
+        let mut headers: Vec<(Vec<u8>, Vec<u8>)> = vec![
+            (b":method".to_vec(), c.method.as_bytes().to_vec()),
+            (b":scheme".to_vec(), b"http".to_vec()),
+            (b":authority".to_vec(), b"origin.test".to_vec()),
+            (b":path".to_vec(), c.path.as_bytes().to_vec()),
+            (b"proxy-authorization".to_vec(), auth.clone().into_bytes()),
+        ];
+        for (n, v) in &c.req_headers {
+            headers.push((n.to_ascii_lowercase().into_bytes(), v.clone().into_bytes()));
+        }
+        if let ReqBody::ContentLength(body) = &c.req_body {
+            headers.push((b"content-length".to_vec(), body.len().to_string().into_bytes()));
+        }
+        let req = H3Request { headers, body: req_body.to_vec(), fin: c.req_body == ReqBody::None, fin_after_body: c.req_body != ReqBody::None };
+        let addr = net.as_ref().unwrap().addr;
+        h3_task = Some(tokio::spawn(async move { h3_session(addr, "main.x", &[req], Duration::from_secs(4)).await }));
+    } else if !c.h2 {
         let mut head = format!("{} http://origin.test{} HTTP/1.1\r\nHost: origin.test\r\nProxy-Authorization: {}\r\nProxy-Connection: keep-alive\r\n", c.method, c.path, auth);
         for (n, v) in &c.req_headers {
             head.push_str(&format!("{}: {}\r\n", n, v));
@@ -289,13 +324,34 @@ async fn run_case(c: &Case) -> Result<Seen, Violation> {
             settle().await;
         }
     }
-    let close_now = c.framing == RespFraming::CloseDelimited || !c.h2;
+    let close_now = c.framing == RespFraming::CloseDelimited || !(c.h2 || c.h3);
     if close_now {
         let _ = origin.to_client.send(PeerMsg::Eof);
     }
 
     // ---- read the response
-    if let Some((fut, conn_task, _sr)) = h2_parts {
+    if let Some(task) = h3_task {
+        match task.await {
+            Ok((conn, mut resps)) => {
+                let r = resps.remove(0);
+                seen.status = r.status;
+                seen.interim = r.interim.clone();
+                seen.headers = r.headers.iter().map(|(n, v)| (n.clone(), String::from_utf8_lossy(v).into_owned())).collect();
+                seen.body = r.body;
+                seen.ended = r.ended && !r.reset;
+                if let Some(e) = conn.error {
+                    seen.error = Some(e);
+                } else if r.status.is_none() {
+                    seen.error = Some("no response within 4 s".into());
+                } else if r.reset {
+                    seen.error = Some("the response stream was reset".into());
+                } else if !r.ended {
+                    seen.error = Some("body not terminated within 4 s".into());
+                }
+            }
+            Err(e) => seen.error = Some(format!("client task: {}", e)),
+        }
+    } else if let Some((fut, conn_task, _sr)) = h2_parts {
         match tokio::time::timeout(Duration::from_secs(20), fut).await {
             Err(_) => seen.error = Some("no response within 20 virtual seconds".into()),
             Ok(Err(e)) => seen.error = Some(format!("response error: {}", e)),
@@ -360,7 +416,7 @@ async fn run_case(c: &Case) -> Result<Seen, Violation> {
 fn judge(c: &Case, s: &Seen) -> Verdict {
     let what = format!(
         "{} {} {} body={:?} -> {} {:?} {}B interim={:?} hop={} cuts={}",
-        if c.h2 { "h2" } else { "h1" },
+        if c.h3 { "h3" } else if c.h2 { "h2" } else { "h1" },
         c.method,
         c.path,
         match &c.req_body {
@@ -461,7 +517,7 @@ fn judge(c: &Case, s: &Seen) -> Verdict {
 fn judge_response(c: &Case, s: &Seen, what: &str) -> Verdict {
     ensure!(s.error.is_none(), "forward:response-broken", "{}: {}", what, s.error.clone().unwrap_or_default());
     ensure!(s.status == Some(c.status), "forward:status-differs", "{}: client got {:?}", what, s.status);
-    if !c.h2 {
+    if !c.h2 && !c.h3 {
         ensure!(s.interim == c.interim, "forward:interim-responses", "{}: client saw interim {:?}", what, s.interim);
     }
     let ch = |name: &str| -> Vec<&str> { s.headers.iter().filter(|(n, _)| n.eq_ignore_ascii_case(name)).map(|(_, v)| v.as_str()).collect() };
@@ -559,6 +615,7 @@ impl Suite for ForwardSuite {
                     hop_by_hop,
                     cuts,
                     slow_client: slow_client && h2,
+                    h3: false,
                 }
             })
             .boxed()
@@ -600,17 +657,75 @@ impl Suite for ForwardSuite {
     }
 }
 
+/// The same exchanges from an HTTP/3 client over the real QUIC listener (real time)
+pub struct ForwardH3Suite;
+
+impl Suite for ForwardH3Suite {
+    type Case = Case;
+    fn name(&self) -> &'static str {
+        "forwarded-exchange-h3"
+    }
+    fn rule(&self) -> String {
+        "the requests and origin responses of suite forwarded-exchange, sent by a quiche HTTP/3 client to the real QUIC listener of Core::listen on loopback (real time, 4 s per exchange); requests without a body finish their stream with the head, requests with a body finish it after the body; the scripted origin answers as there; interim responses and bodies without content-length (the two known findings) are not generated here; same oracle (origin sees one well-formed request, client sees status, end-to-end headers, exactly the de-chunked body and the end of the stream); non-trivial = chunked body under segmentation".into()
+    }
+    fn strategy(&self, t: Tier) -> BoxedStrategy<Case> {
+        ForwardSuite
+            .strategy(t)
+            .prop_map(|mut c| {
+                c.h3 = true;
+                c.h2 = true;
+                c.slow_client = false;
+                // the two known findings of this property are excluded by construction here (they
+                // are exercised, and counted, by forwarded-exchange): every hit would cost 4 s
+                c.interim.clear();
+                if let ReqBody::Unsized(b) = &c.req_body {
+                    c.req_body = ReqBody::ContentLength(b.clone());
+                }
+                c
+            })
+            .boxed()
+    }
+    fn cases(&self, tier: Tier) -> u64 {
+        tier.pick(640, 16_000)
+    }
+    fn classify(&self, c: &Case) -> Vec<&'static str> {
+        let mut v = vec!["h3"];
+        let chunked = matches!(c.framing, RespFraming::Chunked(..)) && !c.bodiless() && c.body_len > 0;
+        if chunked && !c.cuts.is_empty() {
+            v.push("chunked-under-segmentation");
+            v.push("nontrivial");
+        }
+        if c.req_body != ReqBody::None {
+            v.push("request-body");
+        }
+        if !c.interim.is_empty() {
+            v.push("interim");
+        }
+        v
+    }
+    fn required_classes(&self) -> Vec<&'static str> {
+        vec!["nontrivial", "request-body"]
+    }
+    fn check(&self, c: &Case) -> Verdict {
+        let c2 = c.clone();
+        let seen = aio::block_on_real(async move { run_case(&c2).await })?;
+        judge(c, &seen)
+    }
+}
+
 pub fn run(ctx: &mut Ctx) {
     super::replay_corpus(ctx, replay);
     ctx.run_suite(&ForwardSuite);
+    ctx.run_suite(&ForwardH3Suite);
     ctx.assume("chunk trailers are not generated (the statement's quantifier lists sizes and extensions only); on HTTP/1.1 the origin closes after its response so that the end of a chunked or close-delimited body is observable as the end of the connection");
-    ctx.assume("HTTP/3 is not driven in memory; 1xx responses are checked on HTTP/1.1 clients only, as the statement says");
+    ctx.assume("HTTP/3 runs in real time against the real QUIC listener; 1xx responses are checked on HTTP/1.1 clients only, as the statement says");
     let _ = engine::hex(&[]);
 }
 
 pub fn replay(ctx: &mut Ctx, suite: &str, case: &Value) -> bool {
     match suite {
         "forwarded-exchange" => ctx.replay_suite(&ForwardSuite, case),
+        "forwarded-exchange-h3" => ctx.replay_suite(&ForwardH3Suite, case),
         _ => false,
     }
 }
